@@ -8,7 +8,7 @@
     from a tape: a count (a short one allowed) or an error.  An answer that
     reports MORE than was asked is outside C11 (the tape counts are capped by
     the chunk length); the generic [chunk] keeps Go's panic for that case. *)
-From Coq Require Import ZArith NArith List Bool Lia.
+From Coq Require Import ZArith NArith List Bool.
 Import ListNotations.
 
 (** int64 wrap-around of [offset += int64(n)] *)
